@@ -16,6 +16,7 @@ import PoetryVerif.Proofs.MarkerAlgSoundExtra
 import PoetryVerif.Proofs.MarkerAlgSoundComb
 import PoetryVerif.Proofs.MarkerAlgSoundInvert
 import PoetryVerif.Proofs.MarkerAlgSoundVerEqv
+import PoetryVerif.Proofs.MarkerAlgSoundVerInv
 import PoetryVerif.Proofs.MarkerPrint
 
 set_option linter.unusedSimpArgs false
@@ -347,6 +348,26 @@ theorem intersect_union_sound_domain_partial {B : List Version} (hB : RegB B) {e
       have := union_sound_partial (leafSpec_dom hB hX hE HM)
         (fun l hl => domLeaf_evaluable hB hX hE hl) ha hb h
       exact ⟨this.1, this.2.2⟩⟩
+
+/-- **Inversion on the combined domain**: string and `extra` leaves as in `invert_sound_plain`, plus
+`python_full_version <|<=|>|>= "X.Y.Z…"` leaves whose literal is one of the regular bounds `B` — the flipped
+clause is the complement on the environment's version by C05's bound semantics (`lower_allows`,
+`upper_allows`), the flipped text is read back by the character-level grammar theorem and C06's `mkSingle_pfv3`. -/
+theorem invert_sound_domain_partial {B : List Version} (hB : RegB B) {ex : List String}
+    (hX : E.extras = some ex) {p : Version} (hE : VerEnv B E "python_full_version" p)
+    (HM : MkVerOK B "python_full_version" p) {a r : M} (ha : M.Good (DomInvReady B E) a)
+    (h : a.invert = .ok r) :
+    M.Good (DomInvLeaf B E) r ∧ M.validate E r = .ok (!holds E a) := by
+  have := M.invert_sound_dom hB hX hE HM ha h
+  refine ⟨this.1, ?_⟩
+  rw [holds_is_validate E r (M.good_mono (fun l hl => domInvLeaf_evaluable hB hX hE hl) r this.1)]
+  exact congrArg _ this.2
+
+/-- `python_full_version >= "3.8.0"` inverts to `python_full_version < "3.8.0"` -/
+example : Leaf.invert (.single (ineqLeaf .ge ">=" 3 [8, 0])) = .ok (.leaf (.single (ineqLeaf .lt "<" 3 [8, 0]))) ∧
+    DomInvReady [exV380] exEnvPy (.single (ineqLeaf .ge ">=" 3 [8, 0])) :=
+  ⟨invert_ineq (by decide) 3 [8, 0] (by decide),
+   Or.inr ⟨.ge, ">=", .lt, "<", 3, [8, 0], by decide, by decide, by decide, rfl⟩⟩
 
 /-- the leaf facts that remain hypotheses outside the string fragment, as one visible statement:
 version-like variables (through C05's exactness on regular probes), the
